@@ -4,7 +4,9 @@
 //!   verif-harness gen <family> <profile> <seed> <count> <size> <req-file>
 //!   verif-harness run <req-file> <impl-file>        one impl observation line per request line
 //!   verif-harness candidates <req-file>             smaller variants of the (single) request
+mod graphgen;
 mod rng;
+mod sp;
 mod store;
 
 use rng::Rng;
@@ -24,6 +26,7 @@ fn gen(family: &str, profile: &str, seed: u64, count: usize, size: usize) -> Vec
                 };
                 store::gen_case(&mut r, p, size).request()
             }
+            "sp" => sp::gen_case(&mut r, profile, size).request(),
             _ => panic!("unknown family {}", family),
         };
         out.push(line);
@@ -31,10 +34,22 @@ fn gen(family: &str, profile: &str, seed: u64, count: usize, size: usize) -> Vec
     out
 }
 
+/// Run a case under `catch_unwind`; a panic becomes the single field `i.panic`.
+pub fn guarded(f: impl FnOnce() -> String + std::panic::UnwindSafe) -> String {
+    match std::panic::catch_unwind(f) {
+        Ok(s) => s,
+        Err(e) => {
+            let msg = if let Some(s) = e.downcast_ref::<String>() { s.clone() } else if let Some(s) = e.downcast_ref::<&str>() { s.to_string() } else { "?".to_string() };
+            format!("i.panic={}", msg.replace('|', "/").replace('\n', " "))
+        }
+    }
+}
+
 fn run_line(line: &str) -> String {
     let (cmd, mut t) = store::Toks::from_line(line);
     match cmd.as_str() {
         "store" => store::observe(&store::Case::parse(&mut t)),
+        "sp" => { let c = sp::Case::parse(&mut t); guarded(move || sp::observe_inner(&c)) }
         _ => format!("i.badrequest={}", cmd),
     }
 }
@@ -43,6 +58,7 @@ fn candidates(line: &str) -> Vec<String> {
     let (cmd, mut t) = store::Toks::from_line(line);
     match cmd.as_str() {
         "store" => store::candidates(&store::Case::parse(&mut t)),
+        "sp" => sp::candidates(&sp::Case::parse(&mut t)),
         _ => vec![],
     }
 }
